@@ -1,5 +1,9 @@
 (* Properties_C01.v — C01: response bodies are relayed byte-exactly with correct framing.
-   Statements only; proofs live in RelayProofs.v. *)
+   Statements only; proofs live in RelayProofs.v. Model: RelayModel.v (response direction).
+   Reading guide: srv_run f evs = what HttpStateData puts into the StoreEntry for the event sequence evs on the
+   server connection (OSeg = one read, OEof = connection closed by the origin); client_view cf whole ps = what a
+   reference HTTP/1.1 reader decodes from the bytes squid writes to the client when the store hands over the body
+   in the pieces ps: (body, complete?, unread rest). *)
 Require Import SquidV.Bytes SquidV.RelayModel SquidV.RelayProofs.
 Require Import SquidV.gen.Relay_gen.
 Local Open Scope N_scope.
@@ -9,3 +13,159 @@ Local Open Scope N_scope.
 Theorem C01_framing_decision_matches_code : forallb row_ok framing_table = true.
 Proof. exact framing_table_ok. Qed.
 Print Assumptions C01_framing_decision_matches_code.
+
+(* the reference chunked reader does not depend on how its input is cut into reads *)
+Theorem C01_reader_independent_of_segmentation : forall s a b,
+  crun s (a ++ b) =
+  let '(s1, o1, r1) := crun s a in let '(s2, o2, r2) := crun s1 (r1 ++ b) in (s2, o1 ++ o2, r2).
+Proof. exact crun_app. Qed.
+Print Assumptions C01_reader_independent_of_segmentation.
+
+(* every chunked encoding (either hex case, any chunk extension text, any trailer section, any partition of the
+   body into non-empty chunks) decodes to exactly the body and is complete; bytes after it are left unread.
+   Http::Stream::packChunk is the instance upper-case / no extension (pack_chunk) *)
+Theorem C01_chunked_codec_roundtrip : forall upper ext ds trailer rest,
+  ext_ok ext = true -> Forall nonempty ds -> forallb line_ok trailer = true ->
+  crun CSize0 (enc_chunked upper ext ds trailer ++ rest) = (CDone, concat ds, rest).
+Proof. exact chunked_roundtrip. Qed.
+Print Assumptions C01_chunked_codec_roundtrip.
+
+Example C01_codec_hypotheses_satisfiable :
+  ext_ok [59; 120; 61; 121] = true /\ Forall nonempty w_ds /\ forallb line_ok [[88; 58; 32; 49]] = true.
+Proof. repeat split; try reflexivity. repeat constructor; discriminate. Qed.
+
+(* ... and chunks without the last-chunk are never read as a complete message *)
+Theorem C01_chunks_without_last_chunk_incomplete : forall upper ext ds,
+  ext_ok ext = true -> Forall nonempty ds ->
+  crun CSize0 (concat (map (enc_chunk upper ext) ds)) = (CSize0, concat ds, []).
+Proof. exact chunks_without_last. Qed.
+Print Assumptions C01_chunks_without_last_chunk_incomplete.
+
+(* the store-delivery partition used by the correspondence runner (HTTP_REQBUF_SZ pieces) is a partition into
+   non-empty pieces, i.e. an instance of the `ps` quantified below *)
+Theorem C01_store_delivery_partition : forall k body,
+  concat (chop k body) = body /\ Forall nonempty (chop k body).
+Proof. exact relay_chop_partition. Qed.
+Print Assumptions C01_store_delivery_partition.
+
+(* ---- relay_exact: for every reply head that announces a body, every body, every valid origin framing of it,
+   every segmentation of the origin's writes, anything after the message, every client version and every
+   partition of the store deliveries: the client stream decodes to the origin's body and is complete ---- *)
+Theorem C01_relay_exact_content_length : forall h c11 n body extra segs tail ps,
+  h_chunked h = false -> expecting_body h = true -> h_clen h = Some n ->
+  lenN body = n -> segs <> [] -> concat segs = body ++ extra ->
+  let s := srv_run (origin_framing h) (map OSeg segs ++ tail) in
+  concat ps = sv_body s -> Forall nonempty ps ->
+  sv_body s = body /\ sv_whole s = true /\
+  client_view (client_framing h c11) (sv_whole s) ps = (body, true, []).
+Proof. exact relay_exact_len. Qed.
+Print Assumptions C01_relay_exact_content_length.
+
+Example C01_content_length_hypotheses_satisfiable :
+  let h := {| h_status := 404; h_head := false; h_clen := Some 3; h_chunked := false |} in
+  h_chunked h = false /\ expecting_body h = true /\ lenN [97; 98; 99] = 3 /\
+  concat [[97]; [98; 99; 69]] = [97; 98; 99] ++ [69].
+Proof. repeat split. Qed.
+
+Theorem C01_relay_exact_chunked : forall h c11 upper ext ds trailer extra segs tail ps,
+  h_chunked h = true -> expecting_body h = true ->
+  ext_ok ext = true -> Forall nonempty ds -> forallb line_ok trailer = true ->
+  concat segs = enc_chunked upper ext ds trailer ++ extra ->
+  let s := srv_run (origin_framing h) (map OSeg segs ++ tail) in
+  concat ps = sv_body s -> Forall nonempty ps ->
+  sv_body s = concat ds /\ sv_whole s = true /\
+  client_view (client_framing h c11) (sv_whole s) ps = (concat ds, true, []).
+Proof. exact relay_exact_chunked. Qed.
+Print Assumptions C01_relay_exact_chunked.
+
+Example C01_chunked_hypotheses_satisfiable :
+  h_chunked (w_head 200 true) = true /\ expecting_body (w_head 200 true) = true /\
+  concat [w_pre; w_post] = enc_chunked false [] w_ds [] ++ [].
+Proof. repeat split. Qed.
+
+Theorem C01_relay_exact_close_delimited : forall h c11 segs tail ps,
+  h_chunked h = false -> expecting_body h = true -> h_clen h = None ->
+  let s := srv_run (origin_framing h) (map OSeg segs ++ OEof :: tail) in
+  concat ps = sv_body s -> Forall nonempty ps ->
+  sv_body s = concat segs /\ sv_whole s = true /\
+  client_view (client_framing h c11) (sv_whole s) ps = (concat segs, true, []).
+Proof. exact relay_exact_close. Qed.
+Print Assumptions C01_relay_exact_close_delimited.
+
+Example C01_close_delimited_hypotheses_satisfiable :
+  h_chunked (w_head 500 false) = false /\ expecting_body (w_head 500 false) = true /\ h_clen (w_head 500 false) = None.
+Proof. repeat split. Qed.
+
+(* ---- truncation_visible. At full strength ("whenever the origin stream ends early the client message is not
+   complete") the statement is FALSE for the faithful model: see C01_truncation_http10_refuted. Proved parts: ---- *)
+(* (a) Content-Length replies, every client version: fewer bytes than declared, never complete *)
+Theorem C01_truncation_visible_partial_content_length : forall h c11 n segs tail ps,
+  h_chunked h = false -> expecting_body h = true -> h_clen h = Some n ->
+  lenN (concat segs) < n ->
+  let s := srv_run (origin_framing h) (map OSeg segs ++ OEof :: tail) in
+  concat ps = sv_body s -> Forall nonempty ps ->
+  sv_body s = concat segs /\ sv_whole s = false /\
+  client_view (client_framing h c11) (sv_whole s) ps = (concat segs, false, []).
+Proof. exact truncation_visible_len. Qed.
+Print Assumptions C01_truncation_visible_partial_content_length.
+
+(* (b) chunked replies cut anywhere strictly inside the encoding, HTTP/1.1 client: a prefix of the body in chunks
+   without last-chunk, never complete *)
+Theorem C01_truncation_visible_partial_chunked_http11 : forall h upper ext ds trailer pre post segs tail ps,
+  h_chunked h = true -> expecting_body h = true ->
+  ext_ok ext = true -> Forall nonempty ds -> forallb line_ok trailer = true ->
+  enc_chunked upper ext ds trailer = pre ++ post -> post <> [] -> concat segs = pre ->
+  let s := srv_run (origin_framing h) (map OSeg segs ++ OEof :: tail) in
+  concat ps = sv_body s -> Forall nonempty ps ->
+  sv_whole s = false /\ (exists rest, concat ds = sv_body s ++ rest) /\
+  client_view (client_framing h true) (sv_whole s) ps = (sv_body s, false, []).
+Proof. exact truncation_visible_chunked11. Qed.
+Print Assumptions C01_truncation_visible_partial_chunked_http11.
+
+Example C01_truncation_hypotheses_satisfiable :
+  enc_chunked false [] w_ds [] = w_pre ++ w_post /\ w_post <> [] /\ lenN (concat [[97]; [98]]) < 3.
+Proof. repeat split; try discriminate; reflexivity. Qed.
+
+(* (c) a chunked reply cut inside the encoding and relayed to an HTTP/1.0 client: the client framing is
+   close-delimited, the reference reader sees a COMPLETE message whose body is shorter than the origin's *)
+Theorem C01_truncation_http10_refuted :
+  enc_chunked false [] w_ds [] = w_pre ++ w_post /\ w_post <> [] /\
+  let '(cf, (stream, closed)) := relay (w_head 200 true) false [OSeg w_pre; OEof] 4096 in
+  ref_read cf stream closed = ([97; 98; 99; 100; 101], true, []) /\ [97; 98; 99; 100; 101] <> concat w_ds.
+Proof. exact truncation_http10_refuted. Qed.
+Print Assumptions C01_truncation_http10_refuted.
+
+(* malformed chunk framing from the origin: never complete for an HTTP/1.1 client *)
+Theorem C01_malformed_chunked_never_complete : forall h segs tail out rest ps,
+  h_chunked h = true -> expecting_body h = true ->
+  crun CSize0 (concat segs) = (CErr, out, rest) ->
+  let s := srv_run (origin_framing h) (map OSeg segs ++ OEof :: tail) in
+  concat ps = sv_body s -> Forall nonempty ps ->
+  sv_whole s = false /\ snd (fst (client_view (client_framing h true) (sv_whole s) ps)) = false.
+Proof. exact malformed_chunked_incomplete. Qed.
+Print Assumptions C01_malformed_chunked_never_complete.
+
+Example C01_malformed_hypotheses_satisfiable : fst (fst (crun CSize0 [51; 13; 10; 97; 98; 99; 13; 10; 90])) = CErr.
+Proof. reflexivity. Qed.
+
+(* ---- replies without a body ---- *)
+Theorem C01_head_reply_has_no_body : forall h c11 evs k,
+  h_head h = true -> relay h c11 evs k = (CHeadOnly, ([], false)).
+Proof. exact head_reply_no_body. Qed.
+Print Assumptions C01_head_reply_has_no_body.
+
+(* 204 / 304 / 1xx-class status: nothing follows the head PROVIDED no byte arrived in the read that completed it *)
+Theorem C01_bodiless_reply_clean_partial : forall h c11 tail k,
+  h_head h = false -> h_chunked h = false -> expecting_body h = false ->
+  relay h c11 (OSeg [] :: tail) k = (CNoBody, ([], false)).
+Proof. exact bodiless_reply_clean. Qed.
+Print Assumptions C01_bodiless_reply_clean_partial.
+
+(* ... without that proviso it is FALSE: bytes read together with a 204 head are written to the client after
+   the bodiless reply, on a connection that stays open *)
+Theorem C01_bodiless_extra_bytes_refuted :
+  expecting_body (w_head 204 false) = false /\
+  let '(cf, (stream, closed)) := relay (w_head 204 false) true [OSeg [71; 71; 71]; OEof] 4096 in
+  cf = CNoBody /\ closed = false /\ ref_read cf stream closed = ([], true, [71; 71; 71]).
+Proof. exact bodiless_extra_bytes_refuted. Qed.
+Print Assumptions C01_bodiless_extra_bytes_refuted.
